@@ -2,7 +2,7 @@
     Model: Store/FinalizeDefs.v (isBlockOutdated, finalizeBlocks, finalizeBlockImpl incl. fix 057feaed,
     the TIP_IS_FINAL short-cuts of comparePopScore, setState with assertBlockCanBeUnapplied). *)
 From Coq Require Import NArith List Bool.
-From VB Require Import Store.FinalizeDefs Store.FinalizeProofs Store.FinalizeTheorems Store.FinalizeOutdated Store.FinalizeTips Store.FinalizeWindow.
+From VB Require Import Store.FinalizeDefs Store.FinalizeProofs Store.FinalizeTheorems Store.FinalizeOutdated Store.FinalizeTips Store.FinalizeWindow Store.FinalizeBound.
 Import ListNotations.
 Local Open Scope N_scope.
 
@@ -146,3 +146,21 @@ Theorem C09_only_siblings_of_actual_final :
   under_sibling fuel t fin id = true /\ (newRoot =? root_of t) = false.
 Proof. exact only_siblings_of_actual_final. Qed.
 Print Assumptions C09_only_siblings_of_actual_final.
+
+(* VBK finalization takes the bound min_or_default(refs of the BTC tip) explicitly: if any reference of the BTC tip
+   is at or below the VBK block finalization would request, nothing is finalized or deallocated *)
+Theorem C09_vbk_finalization_bounded :
+  forall fuel t maxReorg preserve refs fi r,
+  (height_of t (tip_of t) <? maxReorg) = false ->
+  chain_at t (N.max (height_of t (root_of t)) (height_of t (tip_of t) - maxReorg)) = Some fi ->
+  In r refs -> r <= height_of t fi ->
+  vbk_finalizeBlocks fuel t maxReorg preserve refs = t.
+Proof. exact vbk_finalization_bounded. Qed.
+Print Assumptions C09_vbk_finalization_bounded.
+
+(* a min_or_default that answers the default when the minimum is the first element loses the bound *)
+Theorem C09_min_or_default_first_bug_refuted :
+  min_or_default [0] 2147483647 = 0 /\ min_or_default_first_bug [0] 2147483647 = 2147483647 /\
+  min_or_default [5; 9] 2147483647 = 5 /\ min_or_default_first_bug [5; 9] 2147483647 = 2147483647.
+Proof. exact min_or_default_first_bug_refuted. Qed.
+Print Assumptions C09_min_or_default_first_bug_refuted.
